@@ -155,13 +155,33 @@ def job_fine(L, intf, npol, nchan, nspec):
     return recs
 
 
-def job_reducer(L, intf, ncards, directio):
-    """get_waterfall_from_raw on an in-memory file with symbolic data bytes"""
+def job_reducer(L, intf, ncards, directio, prior=None):
+    """get_waterfall_from_raw on an in-memory file with symbolic data bytes.
+    prior = (ncards0, directio0): a different recording stood at the same path before and was read / reduced there
+    (what the readers return describes the file as it is now)"""
     recs = []
-    tag = f"C07:reducer:{(L, intf, ncards, directio)}"
+    tag = f"C07:reducer:{(L, intf, ncards, directio)}" + (f":after{prior}" if prior else '')
     fs = MemFS()
     nchan, T = 2, L * intf * 2
     block_size = nchan * T * 4
+    if prior:
+        f0 = fs.open('/mem/r.0000.raw', 'wb')
+        hd0 = {f'P{i:02d}': i for i in range(prior[0])}
+        hd0.update({'BLOCSIZE': block_size, 'NBITS': 8})
+        if prior[1] is not None:
+            hd0['DIRECTIO'] = prior[1]
+        for k, v in hd0.items():
+            f0.write(RU.format_header_line(k, v).encode())
+        f0.write(f"{'END':<80}".encode())
+        if prior[1] not in (None, 0):
+            f0.write(bytearray(-(80 * (len(hd0) + 1)) % 512))
+        f0.write(bytes(block_size + 600))
+        f0.close()
+        with volt_patches(opener=fs.open):
+            RU.read_header('/mem/r.0000.raw')
+            WF.get_waterfall_from_raw('/mem/r.0000.raw', block_size, nchan, int_factor=intf, fftlength=L)
+        fs.files.pop('/mem/r.0000.raw', None)
+        fs.files.pop('__flat__/mem/r.0000.raw', None)
     hd = {f'K{i:02d}': i for i in range(ncards)}
     hd.update({'BLOCSIZE': block_size, 'NBITS': 8})
     if directio is not None:
@@ -178,7 +198,7 @@ def job_reducer(L, intf, ncards, directio):
         f.write(bytearray(-(80 * n) % 512))
     f.write(npx.SymBytes(items))
     f.write(npx.SymBytes([Sym(z3.Real(f'next_{i}')) for i in range(600)]))     # what follows must not be read as data
-    pl = dict(fn='reducer', L=L, intf=intf, ncards=ncards, directio=directio)
+    pl = dict(fn='reducer', L=L, intf=intf, ncards=ncards, directio=directio, prior=list(prior) if prior else None)
     with volt_patches(opener=fs.open):
         leaves = core.explore(lambda: WF.get_waterfall_from_raw('/mem/r.0000.raw', block_size, nchan, int_factor=intf, fftlength=L), [], cap=4)
     leaf = leaves[0]
@@ -300,6 +320,20 @@ def replay_reducer(p):
     d = tempfile.mkdtemp(prefix='c07_', dir='/var/tmp')
     try:
         fn = os.path.join(d, 'r.0000.raw')
+        if p.get('prior'):
+            hd0 = {f'P{i:02d}': i for i in range(p['prior'][0])}
+            hd0.update({'BLOCSIZE': bs, 'NBITS': 8})
+            if p['prior'][1] is not None:
+                hd0['DIRECTIO'] = p['prior'][1]
+            with open(fn, 'wb') as f:
+                for k, v in hd0.items():
+                    f.write(ru.format_header_line(k, v).encode())
+                f.write(f"{'END':<80}".encode())
+                if p['prior'][1] not in (None, 0):
+                    f.write(bytearray(-(80 * (len(hd0) + 1)) % 512))
+                f.write(bytes(bs + 600))
+            ru.read_header(fn)
+            wf.get_waterfall_from_raw(fn, bs, nchan, int_factor=intf, fftlength=L)
         hd = {f'K{i:02d}': i for i in range(p['ncards'])}
         hd.update({'BLOCSIZE': bs, 'NBITS': 8})
         if p['directio'] is not None:
@@ -356,6 +390,8 @@ def main():
             if not ck.thorough and (L, intf) in ((4, 2),) and ncards not in (3, 28):
                 continue
             jobs.append(('job_reducer', (L, intf, ncards, directio)))
+    for (L, intf, ncards, directio, prior) in ((2, 1, 5, 0, (12, 1)), (1, 2, 9, 1, (3, None)), (2, 3, 3, None, (28, 1)), (4, 1, 28, 1, (5, 0))):
+        jobs.append(('job_reducer', (L, intf, ncards, directio, prior)))
     ck.bounds = dict(fftlength='1,2,4', int_factor='1..3', pols='1-2', header='symbolic sample_rate, fch1, start_chan, num_chans, channel c; P=16', reducer_headers='3..30 cards, DIRECTIO absent/0/1 (incl. aligned)')
     ck.run_jobs('props.C07', jobs, timeout_s=900)
     ck.finish()
